@@ -11,10 +11,15 @@ hooks = subprocess.run(["git", "-C", "/repo", "log", "--format=%H %s"], capture_
 hook_commits = [l.split(" ")[0] for l in hooks if " verif hooks" in l]
 baseline = json.load(open("/root/.vp/BASELINE.json"))["cmd"]
 checks = []
+TRANSLATED = " Parts of the Go source are additionally TRANSLATED on every run (extractor/translate.go -> MiniGo terms in Generated/Trans.lean) and the translated_* theorems of the property file prove, for every environment, that the translated code does what the model functions say (DESIGN.md section 4f)."
 for pid in ids:
     if pid not in PROPS or pid not in META:
         continue
-    m = META[pid]
+    m = dict(META[pid])
+    pf = os.path.join(ROOT, "lean", "Firebolt", "Properties", pid + ".lean")
+    if os.path.exists(pf) and "theorem translated_" in open(pf).read():
+        m["text"] = m["text"].rstrip() + TRANSLATED
+        m["technique"] = m.get("technique", "Lean 4 theorems about a hand-written model; model tied to /repo by a differential correspondence check and by kernel-checked equalities between the regenerated and the reviewed form of the functions it was transcribed from") + "; plus Lean 4 theorems about MiniGo terms translated from the Go source on every run"
     checks.append(dict(
         property_id=pid,
         quick_cmd="python3 run/verif.py check %s --tier quick" % pid,
